@@ -2,6 +2,7 @@ package transcoding
 
 import (
 	"bytes"
+	"encoding/base64"
 	"encoding/json"
 	"fmt"
 	"io"
@@ -418,7 +419,18 @@ func (d *jsonDecoder) unmarshalScalar(fd protoreflect.FieldDescriptor) (protoref
 	case protoreflect.StringKind:
 		return jsonValueDecode(d.dec, protoreflect.ValueOfString)
 	case protoreflect.BytesKind:
-		return jsonValueDecode(d.dec, protoreflect.ValueOfBytes)
+		// Decoded as a string and not as []byte, because encoding/json also accepts arrays of numbers for []byte.
+		var encoded string
+		if err := d.dec.Decode(&encoded); err != nil {
+			return protoreflect.Value{}, err
+		}
+
+		b, err := base64.StdEncoding.DecodeString(encoded)
+		if err != nil {
+			return protoreflect.Value{}, fmt.Errorf("invalid value for %v type: %w", fd.Kind(), err)
+		}
+
+		return protoreflect.ValueOfBytes(b), nil
 	case protoreflect.EnumKind:
 		// Numbers are kept as literals, so that they can be checked to be valid enum numbers instead of being converted through float64.
 		d.dec.UseNumber()
